@@ -1,14 +1,18 @@
-(* Regular expressions over code points with Brzozowski derivatives (executable matcher).
-   Definitions only; the language semantics and the proofs are in Meta/RegexLang.v. *)
+(* Regular expressions with Brzozowski derivatives (executable matcher) over an abstract alphabet:
+   the 128 ASCII code points individually, and the non-ASCII code points partitioned into the
+   minterms of the classes occurring in the two validation patterns (the partition table is generated
+   by qrb2coq from the patterns as regexp/syntax parses them).  Definitions only. *)
 From Coq Require Import List String Ascii NArith Bool Arith.
 From QRB Require Import Base.Bytes.
 Import ListNotations.
 
-Definition sym := N.                           (* a rune as Go's regexp sees it *)
+Inductive sym :=
+| SA (c : N)                                   (* an ASCII code point, c < 128 *)
+| SM (id : nat).                               (* any non-ASCII code point of minterm id *)
 
 Inductive re :=
 | Nul | Eps
-| Cls (rs : list (N * N))                      (* inclusive ranges *)
+| Cls (ascii : list (N * N)) (mts : list nat)  (* inclusive ASCII ranges, minterm ids *)
 | Cat (a b : re) | Alt (a b : re) | Star (a : re)
 | Rep (a : re) (lo hi : nat).                  (* a{lo,hi} *)
 
@@ -18,9 +22,15 @@ Fixpoint in_ranges (c : N) (rs : list (N * N)) : bool :=
   | (lo, hi) :: r => ((lo <=? c) && (c <=? hi))%N || in_ranges c r
   end.
 
+Definition in_class (s : sym) (ascii : list (N * N)) (mts : list nat) : bool :=
+  match s with
+  | SA c => in_ranges c ascii
+  | SM id => existsb (Nat.eqb id) mts
+  end.
+
 Fixpoint nullable (r : re) : bool :=
   match r with
-  | Nul => false | Eps => true | Cls _ => false
+  | Nul => false | Eps => true | Cls _ _ => false
   | Cat a b => nullable a && nullable b
   | Alt a b => nullable a || nullable b
   | Star _ => true
@@ -33,11 +43,17 @@ Fixpoint ranges_eqb (a b : list (N * N)) : bool :=
   | (x, y) :: a', (u, v) :: b' => N.eqb x u && N.eqb y v && ranges_eqb a' b'
   | _, _ => false
   end.
+Fixpoint nats_eqb (a b : list nat) : bool :=
+  match a, b with
+  | [], [] => true
+  | x :: a', y :: b' => Nat.eqb x y && nats_eqb a' b'
+  | _, _ => false
+  end.
 
 Fixpoint re_eqb (a b : re) : bool :=
   match a, b with
   | Nul, Nul | Eps, Eps => true
-  | Cls x, Cls y => ranges_eqb x y
+  | Cls x m, Cls y n => ranges_eqb x y && nats_eqb m n
   | Cat a1 a2, Cat b1 b2 | Alt a1 a2, Alt b1 b2 => re_eqb a1 b1 && re_eqb a2 b2
   | Star x, Star y => re_eqb x y
   | Rep x l h, Rep y l' h' => re_eqb x y && Nat.eqb l l' && Nat.eqb h h'
@@ -52,17 +68,27 @@ Definition cat (a b : re) : re :=
   | _, _ => Cat a b
   end.
 
-Definition alt (a b : re) : re :=
-  match a, b with
-  | Nul, _ => b
-  | _, Nul => a
-  | _, _ => if re_eqb a b then a else Alt a b
+(* alternatives are kept as a right-nested, duplicate-free list *)
+Fixpoint alt_mem (x : re) (r : re) : bool :=
+  match r with
+  | Alt a b => re_eqb x a || alt_mem x b
+  | _ => re_eqb x r
+  end.
+Fixpoint alt (a b : re) : re :=
+  match a with
+  | Nul => b
+  | Alt a1 a2 => let r := alt a2 b in
+                 match a1 with Nul => r | _ => if alt_mem a1 r then r else match r with Nul => a1 | _ => Alt a1 r end end
+  | _ => match b with
+         | Nul => a
+         | _ => if alt_mem a b then b else Alt a b
+         end
   end.
 
 Fixpoint deriv (c : sym) (r : re) : re :=
   match r with
   | Nul | Eps => Nul
-  | Cls rs => if in_ranges c rs then Eps else Nul
+  | Cls rs ms => if in_class c rs ms then Eps else Nul
   | Cat a b => if nullable a then alt (cat (deriv c a) b) (deriv c b) else cat (deriv c a) b
   | Alt a b => alt (deriv c a) (deriv c b)
   | Star a => cat (deriv c a) (Star a)
@@ -85,53 +111,70 @@ Definition rune_error : N := 65533%N.
 
 Definition cont (b : N) (lo hi : N) : bool := ((lo <=? b) && (b <=? hi))%N.
 
-Fixpoint decode_runes_aux (fuel : nat) (l : list N) : list sym :=
+(* one rune and the number of bytes it consumes *)
+Definition decode_one (l : list N) : N * nat :=
+  match l with
+  | [] => (rune_error, 1)
+  | b0 :: r =>
+      if (b0 <? 128)%N then (b0, 1)
+      else
+        let bad := (rune_error, 1) in
+        let two :=
+          match r with
+          | b1 :: _ => if cont b1 128 191 then (((b0 - 192) * 64 + (b1 - 128))%N, 2) else bad
+          | _ => bad
+          end in
+        let three (lo hi : N) :=
+          match r with
+          | b1 :: b2 :: _ =>
+              if cont b1 lo hi && cont b2 128 191
+              then (((b0 - 224) * 4096 + (b1 - 128) * 64 + (b2 - 128))%N, 3) else bad
+          | _ => bad
+          end in
+        let four (lo hi : N) :=
+          match r with
+          | b1 :: b2 :: b3 :: _ =>
+              if cont b1 lo hi && cont b2 128 191 && cont b3 128 191
+              then (((b0 - 240) * 262144 + (b1 - 128) * 4096 + (b2 - 128) * 64 + (b3 - 128))%N, 4) else bad
+          | _ => bad
+          end in
+        if cont b0 194 223 then two
+        else if N.eqb b0 224 then three 160%N 191%N
+        else if cont b0 225 236 then three 128%N 191%N
+        else if N.eqb b0 237 then three 128%N 159%N
+        else if cont b0 238 239 then three 128%N 191%N
+        else if N.eqb b0 240 then four 144%N 191%N
+        else if cont b0 241 243 then four 128%N 191%N
+        else if N.eqb b0 244 then four 128%N 143%N
+        else bad
+  end.
+
+Fixpoint decode_runes_aux (fuel : nat) (l : list N) : list N :=
   match fuel with
   | O => []
   | S fuel' =>
       match l with
       | [] => []
-      | b0 :: r =>
-          if (b0 <? 128)%N then b0 :: decode_runes_aux fuel' r
-          else
-            let bad := rune_error :: decode_runes_aux fuel' r in
-            let two :=
-              match r with
-              | b1 :: r1 => if cont b1 128 191
-                            then ((b0 - 192) * 64 + (b1 - 128))%N :: decode_runes_aux fuel' r1 else bad
-              | _ => bad
-              end in
-            let three (lo hi : N) :=
-              match r with
-              | b1 :: b2 :: r2 =>
-                  if cont b1 lo hi && cont b2 128 191
-                  then ((b0 - 224) * 4096 + (b1 - 128) * 64 + (b2 - 128))%N :: decode_runes_aux fuel' r2
-                  else bad
-              | _ => bad
-              end in
-            let four (lo hi : N) :=
-              match r with
-              | b1 :: b2 :: b3 :: r3 =>
-                  if cont b1 lo hi && cont b2 128 191 && cont b3 128 191
-                  then ((b0 - 240) * 262144 + (b1 - 128) * 4096 + (b2 - 128) * 64 + (b3 - 128))%N
-                         :: decode_runes_aux fuel' r3
-                  else bad
-              | _ => bad
-              end in
-            if cont b0 194 223 then two
-            else if N.eqb b0 224 then three 160%N 191%N
-            else if cont b0 225 236 then three 128%N 191%N
-            else if N.eqb b0 237 then three 128%N 159%N
-            else if cont b0 238 239 then three 128%N 191%N
-            else if N.eqb b0 240 then four 144%N 191%N
-            else if cont b0 241 243 then four 128%N 191%N
-            else if N.eqb b0 244 then four 128%N 143%N
-            else bad
+      | _ => let (r, k) := decode_one l in r :: decode_runes_aux fuel' (skipn k l)
       end
   end.
 
-Definition decode_runes (s : string) : list sym :=
+Definition decode_runes (s : string) : list N :=
   let l := map N_of_byte (list_of_string s) in decode_runes_aux (S (List.length l)) l.
 
+(* the minterm of a non-ASCII code point: table of inclusive ranges with their minterm id; code points
+   not listed belong to minterm 0 *)
+Fixpoint minterm_of (tbl : list (N * N * nat)) (c : N) : nat :=
+  match tbl with
+  | [] => 0
+  | (lo, hi, id) :: r => if ((lo <=? c) && (c <=? hi))%N then id else minterm_of r c
+  end.
+
+Definition sym_of_rune (tbl : list (N * N * nat)) (c : N) : sym :=
+  if (c <? 128)%N then SA c else SM (minterm_of tbl c).
+
+Definition decode_syms (tbl : list (N * N * nat)) (s : string) : list sym :=
+  map (sym_of_rune tbl) (decode_runes s).
+
 (* regexp.MatchString on an anchored pattern *)
-Definition re_match (r : re) (s : string) : bool := matches r (decode_runes s).
+Definition re_match (tbl : list (N * N * nat)) (r : re) (s : string) : bool := matches r (decode_syms tbl s).
